@@ -367,9 +367,11 @@ func checkOnce(t *T, prop func(*T)) (err *testError) {
 	}
 	defer func() { err = panicToError(recover(), 3) }()
 
+	// Runs after cleanup: a non-fatal failure recorded on t falsifies this test case even if it was
+	// signalled from a cleanup function or was followed by a skip, and never leaks into the next one.
+	defer t.failOnError()
 	defer t.cleanup()
 	prop(t)
-	t.failOnError()
 
 	return nil
 }
